@@ -469,7 +469,7 @@ def replay(witness):
     flavour = witness.get("flavour", "native")
     core.build_driver(flavour)
     out = []
-    d = core.Driver(flavour, timeout=120)
+    d = core.Driver(flavour, timeout=120, stack_kb=8192 if flavour == "native" else 65536)    # same stacks as run_session
     try:
         if witness.get("fixed") == "uninit":
             if witness.get("with_rules"):
